@@ -53,6 +53,24 @@ type DB struct {
 	mem     *dbm.MemDB
 	Log     []Unit
 	logging bool
+	failAt  int // the failAt-th durable write from now on panics instead of being applied (0 = none)
+	writes  int
+}
+
+// FailAt arms (k > 0) or disarms (k = 0) a write fault: the k-th durable write unit from now on is
+// not applied and panics, the way tm-db reports an I/O error; writes after it succeed again (a
+// transient error - whatever the dying code still writes from deferred functions reaches the disk).
+func (d *DB) FailAt(k int) { d.mu.Lock(); d.failAt, d.writes = k, 0; d.mu.Unlock() }
+
+// fault is called before every durable write unit.
+func (d *DB) fault() {
+	d.mu.Lock()
+	d.writes++
+	hit := d.failAt > 0 && d.writes == d.failAt
+	d.mu.Unlock()
+	if hit {
+		panic("crashdb: injected write error")
+	}
 }
 
 func New() *DB { return &DB{mem: dbm.NewMemDB()} }
@@ -112,11 +130,13 @@ func cp(b []byte) []byte { return append([]byte{}, b...) }
 func (d *DB) Get(k []byte) []byte { return d.mem.Get(k) }
 func (d *DB) Has(k []byte) bool   { return d.mem.Has(k) }
 func (d *DB) Set(k, v []byte) {
+	d.fault()
 	d.record(Unit{Ops: []Op{{Key: cp(k), Value: cp(v)}}})
 	d.mem.Set(k, v)
 }
 func (d *DB) SetSync(k, v []byte) { d.Set(k, v) }
 func (d *DB) Delete(k []byte) {
+	d.fault()
 	d.record(Unit{Ops: []Op{{Key: cp(k), Delete: true}}})
 	d.mem.Delete(k)
 }
@@ -139,6 +159,7 @@ func (b *batch) Write() {
 	if len(b.ops) == 0 {
 		return
 	}
+	b.db.fault()
 	b.db.record(Unit{Ops: b.ops, Batch: true})
 	for _, o := range b.ops {
 		if o.Delete {
